@@ -72,9 +72,21 @@ def t1_final_rounding(ctx: Ctx):
     ctx.check(len(rets) == 1 and norm(rets[0].value) == 'self._round_at(p, n, emin, rand_rm, exact)', REALS, fn, q,
               'the result is the ordinary rounding at the original position under the chosen direction', f'got {[norm(r.value) for r in rets]}')
     ctx.check('rand_rm = RoundingMode.RAZ if round_up else RoundingMode.RTZ' in t, REALS, fn, q, 'round_up -> away from zero, otherwise toward zero (the two neighbours, nothing else)', 'direction choice changed')
-    import re
-    ctx.check(re.search(r'if lost\.is_zero\(\): rand_rm = RoundingMode\.\w+ else:', t) is not None, REALS, fn, q,
-              'no lost digits -> any fixed mode (the final rounding is then the identity whatever the mode)', 'exact case changed')
+    # no digits of the extended value below position n: the operand is representable (any mode is the identity), or the
+    # extended value landed on the lower neighbour (no draw rounds away) or carried into the upper one (every draw does)
+    ifs = [s for s in walk_no_nested(fn) if isinstance(s, ast.If) and norm(s.test) == 'lost.is_zero()']
+    ok = False
+    if len(ifs) == 1 and len(ifs[0].body) >= 1 and isinstance(ifs[0].body[-1], ast.Assign) and norm(ifs[0].body[-1].targets[0]) == 'rand_rm':
+        v = ifs[0].body[-1].value
+        if isinstance(v, ast.IfExp):
+            away = norm(v.body) == 'RoundingMode.RAZ' and norm(v.orelse) == 'RoundingMode.RTZ'
+            test = norm(v.test)
+            carried = test in ('abs(xr) > abs(self)', 'abs(self) < abs(xr)')
+            ok = away and carried
+    ctx.check(ok, REALS, ifs[0] if ifs else fn, q,
+              'no lost digits: away from zero exactly when the extended value lies beyond the operand (a carry into the upper neighbour), toward zero otherwise',
+              'the no-lost-digits case does not tell a carry into the upper neighbour from the lower neighbour: an operand whose distance rounds to a full gap '
+              'is truncated on every draw (or a residue rounded down to nothing is rounded away on every draw)')
     ctx.check('xr = self._round_at(None, n_rand, None, rm, exact)' in t and 'n_rand = n - num_randbits' in t, REALS, fn, q,
               'the operand is first rounded to k extra digits under the context\'s own mode', 'intermediate rounding changed')
     ctx.check('_, lost = xr.split(n)' in t, REALS, fn, q, 'the digits compared with the draw are those of the k-digit value below position n', 'changed')
@@ -120,8 +132,12 @@ MUTANTS = [
     Mutant('direction-flipped', REALS, "rand_rm = RoundingMode.RAZ if round_up else RoundingMode.RTZ", "rand_rm = RoundingMode.RTZ if round_up else RoundingMode.RAZ", 'C17.T1',
            'the history records this very defect'),
     Mutant('final-rounding-nearest', REALS, "        return self._round_at(p, n, emin, rand_rm, exact)", "        return self._round_at(p, n, emin, rm, exact)", 'C17.T1'),
-    Mutant('exact-case-rounds-away', REALS, "            # just choose one of the rounding modes (RTZ)\n            rand_rm = RoundingMode.RTZ", "            # just choose one of the rounding modes (RTZ)\n            rand_rm = RoundingMode.RAZ", 'C17.T1', expect='silent',
-           why='with no lost digits every mode is the identity: a behaviour-preserving edit the rule must stay silent on'),
+    Mutant('carry-into-upper-neighbour-truncated', REALS, "            rand_rm = RoundingMode.RAZ if abs(xr) > abs(self) else RoundingMode.RTZ", "            rand_rm = RoundingMode.RTZ", 'C17.T1',
+           'finding F33 before its repair: a distance that rounds to a full gap never rounds away'),
+    Mutant('residue-rounded-down-rounds-away', REALS, "            rand_rm = RoundingMode.RAZ if abs(xr) > abs(self) else RoundingMode.RTZ", "            rand_rm = RoundingMode.RAZ if xr.inexact else RoundingMode.RTZ", 'C17.T1',
+           'seeded change C17a (rebased on the repaired code): a residue below one unit rounds away on every draw'),
+    Mutant('carry-test-respelled', REALS, "            rand_rm = RoundingMode.RAZ if abs(xr) > abs(self) else RoundingMode.RTZ", "            rand_rm = RoundingMode.RAZ if abs(self) < abs(xr) else RoundingMode.RTZ", 'C17.T1', expect='silent',
+           why='the same comparison'),
     Mutant('stochastic-never-taken', REALS, "        if num_randbits == 0:\n            # non-stochastic rounding\n            return self._round_at(p, n, emin, rm, exact)\n        else:\n            # stochastic rounding\n            return self._round_at_stochastic(p, n, emin, rm, num_randbits, rng, exact)\n\n    def round(self,",
            "        if num_randbits == 0 or p is None:\n            return self._round_at(p, n, emin, rm, exact)\n        else:\n            return self._round_at_stochastic(p, n, emin, rm, num_randbits, rng, exact)\n\n    def round(self,", 'C17.T1'),
     Mutant('rng-dropped-by-context', CTX + 'mpb_fixed.py', "num_randbits=self.num_randbits, rng=self.rng, exact=exact)", "num_randbits=self.num_randbits, exact=exact)", 'C17.F1'),
